@@ -262,9 +262,17 @@ func runC16(e *Engine, r *Report) {
 
 	// ---- received snapshot: flag removed only after SaveRaftState
 	saveM := e.Method("raftio", "ILogDB", "SaveRaftState")
-	if rm := r.need("(*dragonboat.node).removeSnapshotFlagFile"); rm != nil && saveM != nil {
+	rm := r.helper("(*dragonboat.node).removeSnapshotFlagFile")
+	if rm == nil {
+		// the node-level wrapper was inlined: the sites are the callers of the snapshotter's own method
+		rm = r.need("(*dragonboat.snapshotter).removeFlagFile")
+	}
+	if rm != nil && saveM != nil {
 		n := 0
 		for _, s := range e.CallerSites(rm) {
+			if !e.IsLive(outermostFn(s.Parent())) {
+				continue
+			}
 			n++
 			ok, w := e.alwaysPrecededBy(s.(ssa.Instruction), func(in ssa.Instruction) bool {
 				c, isC := in.(*ssa.Call)
